@@ -12,6 +12,14 @@
  * model bodies below: an exact min-priority queue over a universe of TCAP timer objects (each timer is queued at most
  * once, so "queued?" + "key" per timer is an exact representation); ties are broken nondeterministically.            */
 #include "gen.h"
+#ifdef H_solve_exact_step
+/* second view of solve, for the one clause the general harness cannot decide: NO profile event is pending
+   (next_date() == -1), the two profile-event loops are unwound (they run once / not at all, unwinding assertions
+   checked) instead of being cut by loop contracts, so the clock is never havocked and `now_ + time_delta` of the code
+   and `g_now0 + RET` of the contract are ONE adder for the solver */
+#define NO_PROFILE_EVENTS 1
+#define C03_EXACT_STEP 1
+#endif
 
 #define FIN(x) __CPROVER_isfinited(x)
 #define ISNAN(x) __CPROVER_isnand(x)
@@ -218,7 +226,12 @@ double Model__next_occurring_event(struct Model* self, double now) __CPROVER_req
     __CPROVER_ensures(1);
 /* -1 when there is no event, else the date of the first one: assumed not NaN */
 double FutureEvtSet__next_date(struct FutureEvtSet* self) __CPROVER_requires(self == &future_evt_set)
-    __CPROVER_assigns(g_pending) __CPROVER_ensures(!ISNAN(__CPROVER_return_value));
+    __CPROVER_assigns(g_pending)
+#ifdef NO_PROFILE_EVENTS
+    __CPROVER_ensures(__CPROVER_return_value == -1.0);
+#else
+    __CPROVER_ensures(!ISNAN(__CPROVER_return_value));
+#endif
 struct Event* FutureEvtSet__pop_leq(struct FutureEvtSet* self, double date, double* value, struct Resource** resource)
     __CPROVER_requires(self == &future_evt_set && __CPROVER_w_ok(value, sizeof(double)) &&
                        __CPROVER_w_ok(resource, sizeof(struct Resource*)))
@@ -249,18 +262,26 @@ void signal_void_double___operator_call(struct signal_void_double_* self, double
   __CPROVER_assigns(__i0, time_delta)                                                                                  \
   __CPROVER_loop_invariant(__r0 == &g_eng.models_ && __i0 <= MN && SOLVE_COMMON)                            \
   __CPROVER_decreases(MN - __i0)
+#ifdef NO_PROFILE_EVENTS
+#define VF_LOOP_EngineImpl__solve_1
+#else
 /* no decreases clause: the source itself warns that this loop may not terminate (periodicity-0 profiles) */
 #define VF_LOOP_EngineImpl__solve_1                                                                                    \
   __CPROVER_assigns(EVT_FRAME)                                                                                         \
   __CPROVER_loop_invariant(SOLVE_COMMON && g_apply_ok && (resource == NULL || resource == &g_res))
+#endif
 #define VF_LOOP_EngineImpl__solve_2                                                                                    \
   __CPROVER_assigns(__i2, time_delta)                                                                                  \
   __CPROVER_loop_invariant(__r2 == &g_eng.models_ && __i2 <= MN && SOLVE_COMMON)                             \
   __CPROVER_decreases(MN - __i2)
+#ifdef NO_PROFILE_EVENTS
+#define VF_LOOP_EngineImpl__solve_3
+#else
 #define VF_LOOP_EngineImpl__solve_3                                                                                    \
   __CPROVER_assigns(EVT_FRAME)                                                                                         \
   __CPROVER_loop_invariant(SOLVE_COMMON && g_apply_ok && (resource == NULL || resource == &g_res))           \
   __CPROVER_decreases(g_pending)
+#endif
 #define VF_LOOP_EngineImpl__solve_4                                                                                    \
   __CPROVER_assigns(__i4, g_upd_calls, g_upd_ok, g_upd_delta)                                                          \
   __CPROVER_loop_invariant(__r4 == &g_eng.models_ && __i4 <= MN && vf_exc == 0 && g_upd_calls == __i4 && g_upd_ok &&   \
@@ -281,9 +302,9 @@ double EngineImpl__solve(struct EngineImpl* self, double max_date)
     /*@ no_next_event_leaves_the_clock_alone */
     __CPROVER_ensures(vf_exc != 0 || RET == -1.0 || RET >= 0.0) /*@ the_step_is_never_negative */
 #ifdef C03_EXACT_STEP
-    /* thorough tier only: no back end decides this clause within 10 minutes (cvc5 > 12 min CPU, SAT > 10 min). The
-       clock is havocked by the loop contracts of the profile-event loops and known to equal g_now0 only through the
-       invariant, so the solver has to prove two separate double adders equivalent. NOT proved in the quick tier. */
+    /* only in harness solve_exact_step (no pending profile event): in the general harness no back end decides this
+       clause within 10 minutes (cvc5 > 12 min CPU, SAT > 10 min) because the clock is havocked by the loop contracts
+       of the profile-event loops and equals g_now0 only through the invariant: two separate double adders. */
     __CPROVER_ensures(vf_exc != 0 || RET == -1.0 ||
                       EQ(now_, (max_date != -1.0 && g_now0 + RET > max_date) ? max_date : g_now0 + RET))
     /*@ clock_advances_by_the_returned_step_but_stops_at_the_requested_date */
@@ -332,13 +353,14 @@ void harness(void)
   VF_CANARY_POINT;
 }
 #endif
-#ifdef H_solve
+#if defined(H_solve) || defined(H_solve_exact_step)
 void harness(void)
 {
   g_eng.models_.d = g_mods;
   g_mods[0]       = &g_m0;
   g_mods[1]       = &g_m1;
   g_mods[2]       = &g_m2;
+  g_now0 = now_;
   EngineImpl__solve(&g_eng, nondet_double());
   VF_CANARY_POINT;
 }
